@@ -153,9 +153,11 @@ int main(int argc, char** argv) {
     int p0 = pos_;
     quota[t] = (unsigned)nev;
     give(t); await(0);
-    if (!done_[t] && quota[t] != 0) diverge("thread stopped with quota left");
-    while (pos_ - p0 < draws) vp_native_nondet(2);   /* draws of an enabling condition that was evaluated and found false */
-    if (pos_ - p0 > draws) diverge("more draws consumed than in the encoding");
+    if (!done_[t] && quota[t] != 0 && nev < 100000000) diverge("thread stopped with quota left");
+    while (pos_ - p0 < draws && draws < 100000) vp_native_nondet(2);   /* draws of an enabling condition that was evaluated and found false */
+    if (pos_ - p0 > draws && draws < 100000) diverge("more draws consumed than in the encoding");
+    /* a context without a drawn budget is a solo phase: scheduled alone with an unlimited budget the thread must finish */
+    if (!drawn && !done_[t]) vp_native_assert_fail(-1, "solo run: thread cannot finish although it is the only one scheduled");
   }
   vp_cur = 0; me = 0;
   int all = 1, can = 0;
